@@ -967,7 +967,8 @@ class Sim(object):
                 self._ended(st)
             self.wait_log.append((t0, timeout, True, self.now))
             return True
-        if timeout is None:
+        if timeout is None or timeout < 0:
+            # poll() - the platform selector on Linux - waits without limit for a negative timeout as well
             timeout = float("inf")
         nd = st.next_due()
         if nd is not None and nd <= self.now + timeout:
